@@ -68,6 +68,13 @@ CLAIMED = {
         'Necessary conditions of purity; equality of results across histories is not executed.',
    note='Trusted: clang AST/CFG/call graph; "state-changing" is computed from method bodies. Known findings: three unrestored xmlKeepBlanksDefault calls (pinned by Parser.parseResets).',
    ref='DESIGN.md section 4, C12'),
+ 'C13': dict(
+   technique='static analysis: must-precede (dominance) of the index refresh before any id generation over the call graph, id-kind set agreement between sibling traversals, control-dependence of setters on empty tests, must-pass bookkeeping',
+   text='Every exported Annotator method from which an id can be generated refreshes the identifier index on every path before the first generation, and replacing the model invalidates the cached index; the six traversals that list, hash, '
+        'assign, clear, print-reserve and validate identifiers visit the same thirteen id kinds; ids are assigned only under the matching empty test; each generated id is indexed before the next generation. '
+        'Necessary conditions of completeness, non-destructiveness and uniqueness; concrete id strings are not generated.',
+   note='Trusted: clang AST/CFG/call graph; id kinds are recognised by getter/setter name and static receiver type. Two stale-index defects were replayed and repaired.',
+   ref='DESIGN.md section 4, C13'),
  'C16': dict(
    technique='static analysis: recogniser non-vacuity, grammar terminals read from the AST, exception-channel screening of std::sto*, use-site branch rules',
    text='Decides on all paths of the recognisers/conversions: no acceptance through std::all_of over an empty string; sign/digit/point/e-marker sets and count bounds equal the CellML grammar; '
